@@ -17,6 +17,7 @@ import (
 	"strconv"
 	"strings"
 	"sync"
+	"sync/atomic"
 	"testing"
 	"time"
 
@@ -50,6 +51,10 @@ type workload struct {
 	SrcYields  int            `json:"src_yields"`                // extra scheduling points per feature in the reader (slow reader)
 	TgtYields  int            `json:"tgt_yields"`                // extra scheduling points per received feature (slow target)
 	NearDup    bool           `json:"near_duplicates,omitempty"` // polygons of consecutive features nearly coincide
+	// More: further tables processed by further ProcessFeatures calls in the same run (the
+	// command line tool calls it once per table in one process), each with its own stream
+	// and targets; state kept between calls by the code under test shows here
+	More []workload `json:"more,omitempty"`
 	// slowness in simulated TIME (the bubble's fake clock): what timer-based code reacts to
 	FlushSleepMs map[string]int `json:"flush_sleep_ms,omitempty"` // per target: duration of the final flush
 	RecvSleepMs  map[string]int `json:"recv_sleep_ms,omitempty"`  // per target: handling time per feature
@@ -82,6 +87,37 @@ var polyKinds = map[string]bool{"polygon": true, "multipolygon": true}
 var allKinds = []string{"polygon", "multipolygon", "point", "linestring", "multipoint", "multilinestring", "collection"}
 
 func genWorkload(seed uint64, mix string) (workload, simrt.FaultPlan, simrt.MapPolicy, uint64) {
+	return genWorkloadN(seed, mix, false)
+}
+
+// fixOutcomes re-keys the snapping outcome table of a workload whose target set was replaced.
+func fixOutcomes(w *workload) {
+	for fi := range w.Features {
+		for pi := range w.Features[fi].Parts {
+			old := w.Features[fi].Parts[pi].Out
+			vals := make([]int, 0, len(old))
+			keys := make([]string, 0, len(old))
+			for k := range old {
+				keys = append(keys, k)
+			}
+			sort.Strings(keys)
+			for _, k := range keys {
+				vals = append(vals, old[k])
+			}
+			out := map[string]int{}
+			for i, id := range w.Targets {
+				if i < len(vals) {
+					out[strconv.Itoa(id)] = vals[i]
+				} else if (fi+pi+id)%3 != 0 {
+					out[strconv.Itoa(id)] = 1
+				}
+			}
+			w.Features[fi].Parts[pi].Out = out
+		}
+	}
+}
+
+func genWorkloadN(seed uint64, mix string, nested bool) (workload, simrt.FaultPlan, simrt.MapPolicy, uint64) {
 	r := simrt.NewRNG(seed, "pipesim-workload")
 	var w workload
 	// targets: 1..5 distinct ids from 0..16, unsorted
@@ -220,6 +256,46 @@ func genWorkload(seed uint64, mix string) (workload, simrt.FaultPlan, simrt.MapP
 		w.SrcLingerMs = []int{1, 2000, 40000}[r.Intn(3)]
 	}
 
+	if !nested && r.Chance(0.3) {
+		for k, n := 0, 1+r.Intn(2); k < n; k++ {
+			nw, _, _, _ := genWorkloadN(seed*31+uint64(k)+7, mix, true)
+			switch x := r.Intn(10); {
+			case x < 6: // the same targets again, as the command line tool does
+				nw.Targets = append([]int(nil), w.Targets...)
+				nw.Flush = map[string]int{}
+				for _, id := range nw.Targets {
+					nw.Flush[strconv.Itoa(id)] = 1 + r.Intn(3)
+				}
+				fixOutcomes(&nw)
+			case x < 8: // a superset or subset
+				nw.Targets = append([]int(nil), w.Targets...)
+				if r.Chance(0.5) && len(nw.Targets) > 1 {
+					nw.Targets = nw.Targets[:len(nw.Targets)-1]
+				} else {
+					for id := 0; id < 17; id++ {
+						seen := false
+						for _, t := range nw.Targets {
+							seen = seen || t == id
+						}
+						if !seen {
+							nw.Targets = append(nw.Targets, id)
+							break
+						}
+					}
+				}
+				nw.Flush = map[string]int{}
+				for _, id := range nw.Targets {
+					nw.Flush[strconv.Itoa(id)] = 1 + r.Intn(3)
+				}
+				fixOutcomes(&nw)
+			}
+			if r.Chance(0.25) {
+				nw.Features = nil // an empty table in between
+			}
+			nw.NearDup = w.NearDup
+			w.More = append(w.More, nw)
+		}
+	}
 	// fault plan (swarm: each run enables its own subset)
 	fr := simrt.NewRNG(seed, "pipesim-faults")
 	var fp simrt.FaultPlan
@@ -671,6 +747,14 @@ type runResult struct {
 }
 
 func stepBudget(w *workload) int {
+	total := 0
+	for _, tw := range tablesOf(w) {
+		total += stepBudget1(tw)
+	}
+	return total
+}
+
+func stepBudget1(w *workload) int {
 	f, t := len(w.Features)+1, len(w.Targets)+2
 	per := 1 + w.SnapYields + w.SrcYields + w.TgtYields
 	fl := 0
@@ -698,6 +782,15 @@ func build(w *workload) (*harness, *fakeSource, map[int]processing.Target) {
 		targets[id] = ft
 	}
 	return h, src, targets
+}
+
+// tablesOf lists the tables of a run: the workload itself and its follow-ups.
+func tablesOf(w *workload) []*workload {
+	out := []*workload{w}
+	for i := range w.More {
+		out = append(out, &w.More[i])
+	}
+	return out
 }
 
 func sortedTargets(h *harness) []*fakeTarget {
@@ -741,16 +834,26 @@ var onFatal func(v *simh.Violation)
 
 func runSim(t *testing.T, w *workload, fp simrt.FaultPlan, mp simrt.MapPolicy, mapSeed, seed uint64, tape []uint32, replay, trace bool) (rr runResult) {
 	rr.probes = simh.Counter{}
-	h, src, targets := build(w)
+	tables := tablesOf(w)
+	var hmu sync.Mutex
+	var harnesses []*harness
+	var returned atomic.Int32
 	simrt.SetMapOrder(mp, mapSeed)
 	var early *simh.Violation
-	checkedReturn := false
+	checked := 0
 	opt := simrt.Options{
 		Seed: seed, Faults: fp, Tape: tape, Replay: replay, MaxSteps: stepBudget(w), Trace: trace, TapeSink: tapeSink,
 		AfterStep: func(s *simrt.Sim) string {
-			if !checkedReturn && s.CallerDone() {
-				checkedReturn = true
-				if v := waitForAll(h); v != nil {
+			// at the first quiescent point after a call of ProcessFeatures has returned
+			for checked < int(returned.Load()) {
+				hmu.Lock()
+				hk := harnesses[checked]
+				hmu.Unlock()
+				checked++
+				if v := waitForAll(hk); v != nil {
+					if checked > 1 {
+						v.Message = fmt.Sprintf("table %d of the run: ", checked) + v.Message
+					}
 					early = v
 					return v.Message
 				}
@@ -760,12 +863,29 @@ func runSim(t *testing.T, w *workload, fp simrt.FaultPlan, mp simrt.MapPolicy, m
 	}
 	var leak string
 	rr.sim, leak = simh.RunBubble(t, opt, func() {
-		processing.ProcessFeatures(src, targets, h.tableSnap)
+		for k, tw := range tables {
+			hk, src, targets := build(tw)
+			hmu.Lock()
+			harnesses = append(harnesses, hk)
+			hmu.Unlock()
+			processing.ProcessFeatures(src, targets, hk.tableSnap)
+			returned.Store(int32(k + 1))
+			if k+1 < len(tables) {
+				simrt.YieldAs("caller", "caller:next-table")
+			}
+		}
 	}, func(stacks string) {
 		if onFatal != nil {
 			onFatal(&simh.Violation{Class: "lifecycle/goroutine-leak", Message: stacks})
 		}
 	})
+	checkedReturn := checked == len(tables)
+	var h *harness
+	if len(harnesses) > 0 {
+		h = harnesses[0]
+	} else {
+		h, _, _ = build(w)
+	}
 	rr.mapStats, rr.mapDigest = simrt.TakeMapStats()
 	simrt.SetMapOrder(simrt.MapNative, 0)
 	wj, _ := json.Marshal(w)
@@ -790,27 +910,30 @@ func runSim(t *testing.T, w *workload, fp simrt.FaultPlan, mp simrt.MapPolicy, m
 	if rr.violation == nil && !checkedReturn {
 		rr.violation = &simh.Violation{Class: "lifecycle/no-return", Message: "ProcessFeatures never returned"}
 	}
-	if rr.sim.Outcome == "ok" || rr.sim.Outcome == "invariant" {
-		h.mu.Lock()
-		for _, ft := range sortedTargets(h) {
-			if rr.deliveryViolation == nil && (rr.sim.Outcome == "ok") {
-				rr.deliveryViolation = checkDelivery(w, ft)
+	if rr.sim.Outcome == "ok" {
+		for k, hk := range harnesses {
+			hk.mu.Lock()
+			if rr.deliveryViolation == nil && hk.snapBad != "" {
+				rr.deliveryViolation = &simh.Violation{Class: "delivery/snap-input", Message: hk.snapBad}
 			}
+			for _, ft := range sortedTargets(hk) {
+				if rr.deliveryViolation == nil {
+					if v := checkDelivery(tables[k], ft); v != nil {
+						if k > 0 {
+							v.Message = fmt.Sprintf("table %d of the run: ", k+1) + v.Message
+						}
+						rr.deliveryViolation = v
+					}
+				}
+			}
+			hk.mu.Unlock()
 		}
-		h.mu.Unlock()
 	}
 	if rr.violation == nil {
-		h.mu.Lock()
-		if h.snapBad != "" {
-			rr.violation = &simh.Violation{Class: "delivery/snap-input", Message: h.snapBad}
-		}
-		for _, ft := range sortedTargets(h) {
-			if rr.violation != nil {
-				break
-			}
-			rr.violation = checkDelivery(w, ft)
-		}
-		h.mu.Unlock()
+		rr.violation = rr.deliveryViolation
+	}
+	if len(tables) > 1 {
+		rr.probes.Inc("several-tables-in-one-run(consecutive-calls)")
 	}
 	collectProbes(h, w, &rr)
 	return rr
@@ -941,6 +1064,15 @@ func collectProbes(h *harness, w *workload, rr *runResult) {
 // free-running pass (race detector): same workloads and oracles, no scheduler
 
 func runFree(w *workload) *simh.Violation {
+	for _, tw := range tablesOf(w) {
+		if v := runFree1(tw); v != nil {
+			return v
+		}
+	}
+	return nil
+}
+
+func runFree1(w *workload) *simh.Violation {
 	h, src, targets := build(w)
 	processing.ProcessFeatures(src, targets, h.tableSnap)
 	// the caller's view right after return, without any synchronisation of its own:
@@ -981,9 +1113,10 @@ func TestVerifPipesim(t *testing.T) {
 	log.SetOutput(runLog)
 	switch job.Mode {
 	case "explore", "selftest":
-		explore(t, job, out)
+		// all simulated runs of this process in ONE bubble (see simh.InBubble)
+		simh.InBubble(t, func() { explore(t, job, out) })
 	case "candidates":
-		candidates(t, job, out)
+		simh.InBubble(t, func() { candidates(t, job, out) })
 	case "race":
 		racePass(t, job, out)
 	default:
@@ -994,7 +1127,7 @@ func TestVerifPipesim(t *testing.T) {
 func mkReplay(job *simh.Job, seed uint64, w workload, fp simrt.FaultPlan, mp simrt.MapPolicy, mapSeed uint64, rr runResult) replayFile {
 	return replayFile{Property: job.Property, Engine: "pipesim", Mix: job.Mix, Seed: seed, Workload: w, Faults: fp,
 		MapPolicy: mp.String(), MapSeed: mapSeed, Tape: rr.sim.Tape, Violation: rr.violation,
-		ShrinkArrays: []string{"workload.features", "workload.targets", "workload.features.*.parts", "workload.features.*.cols"},
+		ShrinkArrays: []string{"workload.more", "workload.features", "workload.targets", "workload.features.*.parts", "workload.features.*.cols", "workload.more.*.features", "workload.more.*.targets"},
 		ShrinkInts:   []string{"workload.snap_yields", "workload.src_yields", "workload.tgt_yields", "workload.flush.*", "workload.flush_sleep_ms.*", "workload.recv_sleep_ms.*", "workload.snap_sleep_ms", "workload.src_sleep_ms", "workload.src_linger_ms"},
 		Trace:        rr.sim.Trace}
 }
@@ -1003,7 +1136,7 @@ func explore(t *testing.T, job *simh.Job, out *simh.Out) {
 	sum := simh.NewSummary("pipesim", job.Mode, job.SeedLo)
 	digests := simh.NewDigestSet(2000000)
 	dl := simh.NewDeadline(job.BudgetS)
-	t0 := time.Now()
+	t0 := simh.RealNow()
 	selftest := job.Mode == "selftest"
 	for seed := job.SeedLo; seed < job.SeedHi; seed++ {
 		if dl.Expired() {
@@ -1081,10 +1214,11 @@ func explore(t *testing.T, job *simh.Job, out *simh.Out) {
 			if !rrHasTrace(rr) {
 				// re-run with the recorded tape to obtain the trace (also a first replay check)
 				rr2 := runSim(t, &w, fp, mp, mapSeed, seed, rr.sim.Tape, true, true)
-				if rr2.violation == nil || rr2.violation.Class != rr.violation.Class {
-					simh.Fatalf("pipesim: in-process replay of seed %d did not reproduce %s", seed, rr.violation.Class)
+				if rr2.violation != nil && rr2.violation.Class == rr.violation.Class {
+					rr = rr2
 				}
-				rr = rr2
+				// (otherwise: state kept across calls by the code under test may be involved; the
+				// driver confirms in a fresh process, with a prelude of preceding seeds if needed)
 			}
 			out.Line(map[string]interface{}{"t": "violation", "seed": seed, "replay": mkReplay(job, seed, w, fp, mp, mapSeed, rr)})
 			break
@@ -1097,7 +1231,7 @@ func explore(t *testing.T, job *simh.Job, out *simh.Out) {
 	}
 	simh.WriteDigests(job.Out+".digests", digests.Slice())
 	sum.DigestsTotal = int64(digests.Len())
-	sum.WallS = time.Since(t0).Seconds()
+	sum.WallS = simh.RealNow().Sub(t0).Seconds()
 	out.Line(sum)
 }
 
@@ -1162,7 +1296,7 @@ func candidates(t *testing.T, job *simh.Job, out *simh.Out) {
 func racePass(t *testing.T, job *simh.Job, out *simh.Out) {
 	sum := simh.NewSummary("pipesim-free", job.Mode, job.SeedLo)
 	dl := simh.NewDeadline(job.BudgetS)
-	t0 := time.Now()
+	t0 := simh.RealNow()
 	for seed := job.SeedLo; seed < job.SeedHi; seed++ {
 		if dl.Expired() {
 			break
@@ -1181,7 +1315,7 @@ func racePass(t *testing.T, job *simh.Job, out *simh.Out) {
 				simh.Fatalf("%v", err)
 			}
 			so.Line(map[string]interface{}{"t": "replay", "replay": replayFile{Property: job.Property, Engine: "pipesim-free", Mix: job.Mix, Seed: seed, Workload: w, Faults: fp,
-				MapPolicy: mp.String(), MapSeed: mapSeed, ShrinkArrays: []string{"workload.features", "workload.targets"}}})
+				MapPolicy: mp.String(), MapSeed: mapSeed, ShrinkArrays: []string{"workload.more", "workload.features", "workload.targets", "workload.more.*.features"}}})
 			so.Close()
 		}
 		v := runFree(&w)
@@ -1197,12 +1331,12 @@ func racePass(t *testing.T, job *simh.Job, out *simh.Out) {
 		if v != nil {
 			rf := replayFile{Property: job.Property, Engine: "pipesim-free", Mix: job.Mix, Seed: seed, Workload: w, Faults: fp,
 				MapPolicy: mp.String(), MapSeed: mapSeed, Violation: v,
-				ShrinkArrays: []string{"workload.features", "workload.targets"}}
+				ShrinkArrays: []string{"workload.more", "workload.features", "workload.targets", "workload.more.*.features"}}
 			out.Line(map[string]interface{}{"t": "violation", "seed": seed, "replay": rf})
 			break
 		}
 	}
-	sum.WallS = time.Since(t0).Seconds()
+	sum.WallS = simh.RealNow().Sub(t0).Seconds()
 	out.Line(sum)
 	_ = os.Stdout
 }
